@@ -4,11 +4,13 @@ package server
 
 // C12, Server.apply binding: the behaviours of spec/Groups.tla executed on two
 // real (never-started) Servers.  Every committed operation goes through
-// Server.apply on both; the goroutine that removeStream starts to announce a
-// deleted stream to the consumer groups is parked at the gate hook
-// verifGate("metadata.stream_deleted") and released when the behaviour says
-// (step RunSD), so the order of StreamDeleted relative to later group
-// operations is the behaviour's, per server.
+// Server.apply on both.  The announcement of a deleted stream to the consumer
+// groups (the function metadataAPI.removeStream returns) passes the gate hook
+// verifGate("metadata.stream_deleted"): called from the goroutine that applies
+// (the driver's) it passes at once; an announcement that arrives from ANY OTHER
+// goroutine is not part of the apply and is held until the behaviour is over -
+// the state recorded after the DELETE_STREAM then shows what a later operation
+// would meet (the schedule of the repaired findings C12-stream-deleted-*).
 
 import (
 	"bytes"
@@ -20,23 +22,29 @@ import (
 	"strings"
 	"sync"
 	"testing"
-	"time"
 
 	proto "github.com/liftbridge-io/liftbridge/server/protocol"
 )
 
-type v12Parked struct {
-	sd v12SD
-	ch chan struct{}
-}
-
 type v12Gate struct {
 	mu     sync.Mutex
-	parked []chan struct{}
+	driver string          // goroutine id of the driver (which calls Server.apply)
+	parked []chan struct{} // announcements that arrived from other goroutines
+}
+
+// v12GID returns the id of the calling goroutine ("goroutine 12 [running]:...")
+func v12GID() string {
+	buf := make([]byte, 64)
+	n := runtime.Stack(buf, false)
+	f := strings.Fields(string(buf[:n]))
+	if len(f) < 2 {
+		return ""
+	}
+	return f[1]
 }
 
 func (g *v12Gate) hook(name string) {
-	if name != "metadata.stream_deleted" {
+	if name != "metadata.stream_deleted" || v12GID() == g.driver {
 		return
 	}
 	ch := make(chan struct{})
@@ -46,26 +54,14 @@ func (g *v12Gate) hook(name string) {
 	<-ch
 }
 
-func (g *v12Gate) count() int {
+// releaseAll lets the held announcements go (end of a behaviour)
+func (g *v12Gate) releaseAll() {
 	g.mu.Lock()
-	defer g.mu.Unlock()
-	return len(g.parked)
-}
-
-// waitArrival waits until the n-th goroutine has parked and returns its channel.
-func (g *v12Gate) waitArrival(n int) (chan struct{}, bool) {
-	deadline := time.Now().Add(20 * time.Second)
-	for time.Now().Before(deadline) {
-		g.mu.Lock()
-		if len(g.parked) >= n {
-			ch := g.parked[n-1]
-			g.mu.Unlock()
-			return ch, true
-		}
-		g.mu.Unlock()
-		time.Sleep(50 * time.Microsecond)
+	for _, ch := range g.parked {
+		close(ch)
 	}
-	return nil, false
+	g.parked = nil
+	g.mu.Unlock()
 }
 
 type v12FSMRun struct {
@@ -73,23 +69,16 @@ type v12FSMRun struct {
 	streams []string
 	srv     map[string]*Server
 	dirs    map[string]string
-	pend    map[string][]v12Parked
 	idx     uint64
 	gate    *v12Gate
-	infra   string // set when the harness could not sequence a step in time
 }
 
 const v12GroupID = "g"
 
 func (r *v12FSMRun) state() v12State {
-	st := v12State{Gs: map[string]v12Group{}, Pend: map[string][]v12SD{}, Parts: map[string]int32{}, Idx: r.idx}
+	st := v12State{Gs: map[string]v12Group{}, Parts: map[string]int32{}, Idx: r.idx}
 	for _, v := range r.servers {
 		st.Gs[v] = v12Project(r.srv[v].metadata.GetConsumerGroup(v12GroupID))
-		ps := []v12SD{}
-		for _, p := range r.pend[v] {
-			ps = append(ps, p.sd)
-		}
-		st.Pend[v] = ps
 	}
 	for _, s := range r.streams {
 		st.Parts[s] = r.srv[r.servers[0]].metadata.countStreamPartitions(s)
@@ -125,52 +114,16 @@ func (r *v12FSMRun) admitted(op *proto.RaftLog) (ok bool) {
 	return err == nil
 }
 
-func (r *v12FSMRun) applyAll(o map[string]interface{}, obs *v12Obs, deleted string) {
+func (r *v12FSMRun) applyAll(o map[string]interface{}, obs *v12Obs) {
 	if !r.admitted(v06BuildOp(o)) {
 		obs.Err = "precondition"
 		return
 	}
 	r.idx++
 	for _, v := range r.servers {
-		before := r.gate.count()
 		if e := v06ApplyErr(r.srv[v], v06BuildOp(o), r.idx, false); e != "" && obs.Err == "" {
 			obs.Err = e
 		}
-		if deleted != "" {
-			ch, ok := r.gate.waitArrival(before + 1)
-			if !ok {
-				r.infra = "StreamDeleted goroutine did not reach the gate"
-				return
-			}
-			r.pend[v] = append(r.pend[v], v12Parked{sd: v12SD{S: deleted, E: r.idx}, ch: ch})
-		}
-	}
-}
-
-// v12CountSD counts the goroutines started by metadataAPI.removeStream that
-// still exist (parked at the gate or running), by their stack.
-func v12CountSD() int {
-	buf := make([]byte, 1<<20)
-	for {
-		n := runtime.Stack(buf, true)
-		if n < len(buf) {
-			return strings.Count(string(buf[:n]), "metadataAPI).removeStream.func")
-		}
-		buf = make([]byte, 2*len(buf))
-	}
-}
-
-// release lets one parked announcement run and waits until its goroutine is gone
-func (r *v12FSMRun) release(p v12Parked) {
-	n := v12CountSD()
-	close(p.ch)
-	deadline := time.Now().Add(20 * time.Second)
-	for v12CountSD() >= n {
-		if time.Now().After(deadline) {
-			r.infra = "released StreamDeleted goroutine did not finish"
-			return
-		}
-		time.Sleep(20 * time.Microsecond)
 	}
 }
 
@@ -183,52 +136,28 @@ func (r *v12FSMRun) step(id int, step map[string]interface{}) v12Event {
 		s, n := vStr(step, "s"), vInt(step, "n")
 		args["s"], args["n"] = s, n
 		r.applyAll(map[string]interface{}{"op": "CreateStream", "s": s, "n": float64(n),
-			"R": []interface{}{"r1", "r2", "r3"}, "ldr": "r1"}, &obs, "")
+			"R": []interface{}{"r1", "r2", "r3"}, "ldr": "r1"}, &obs)
 	case "DeleteStream":
 		s := vStr(step, "s")
 		args["s"] = s
-		r.applyAll(map[string]interface{}{"op": "DeleteStream", "s": s}, &obs, s)
+		r.applyAll(map[string]interface{}{"op": "DeleteStream", "s": s}, &obs)
 	case "CreateGroup":
 		c, coord := vStr(step, "c"), vStr(step, "coord")
 		args["c"], args["coord"], args["streams"] = c, coord, vFStrs(step, "streams")
 		r.applyAll(map[string]interface{}{"op": "CreateGroup", "g": v12GroupID, "c": c, "S": step["streams"],
-			"coord": coord}, &obs, "")
+			"coord": coord}, &obs)
 	case "Join":
 		c := vStr(step, "c")
 		args["c"], args["streams"] = c, vFStrs(step, "streams")
-		r.applyAll(map[string]interface{}{"op": "JoinGroup", "g": v12GroupID, "c": c, "S": step["streams"]}, &obs, "")
+		r.applyAll(map[string]interface{}{"op": "JoinGroup", "g": v12GroupID, "c": c, "S": step["streams"]}, &obs)
 	case "Leave":
 		c, how := vStr(step, "c"), vStrDef(step, "how", "leave")
 		args["c"], args["how"] = c, how
-		r.applyAll(map[string]interface{}{"op": "LeaveGroup", "g": v12GroupID, "c": c, "expired": how == "expire"}, &obs, "")
+		r.applyAll(map[string]interface{}{"op": "LeaveGroup", "g": v12GroupID, "c": c, "expired": how == "expire"}, &obs)
 	case "ChangeCoordinator":
 		coord := vStr(step, "coord")
 		args["coord"] = coord
-		r.applyAll(map[string]interface{}{"op": "ChangeCoordinator", "g": v12GroupID, "coord": coord}, &obs, "")
-	case "RunSD":
-		v, s, e := vStr(step, "srv"), vStr(step, "s"), uint64(vInt(step, "e"))
-		args["srv"], args["s"], args["e"] = v, s, e
-		obs.Srv = v
-		found := -1
-		for i, p := range r.pend[v] {
-			if p.sd.S == s && p.sd.E == e {
-				found = i
-				break
-			}
-		}
-		if found < 0 {
-			obs.A, a = "Skip", "Skip"
-			break
-		}
-		p := r.pend[v][found]
-		r.pend[v] = append(r.pend[v][:found:found], r.pend[v][found+1:]...)
-		// observed before the call: would the epoch guard refuse it?
-		if g := r.srv[v].metadata.GetConsumerGroup(v12GroupID); g != nil {
-			if _, epoch := g.GetCoordinator(); e < epoch {
-				obs.Err = "refused"
-			}
-		}
-		r.release(p)
+		r.applyAll(map[string]interface{}{"op": "ChangeCoordinator", "g": v12GroupID, "coord": coord}, &obs)
 	case "Restore":
 		// server v takes a snapshot (Server.Snapshot, fsmSnapshot.Persist), stops, and a
 		// new Server over the same directory restores it (Server.Restore) and finishes
@@ -236,7 +165,7 @@ func (r *v12FSMRun) step(id int, step map[string]interface{}) v12Event {
 		v := vStr(step, "srv")
 		args["srv"] = v
 		obs.Srv = v
-		if len(r.pend[v]) > 0 || r.srv[v].metadata.GetConsumerGroup(v12GroupID) == nil {
+		if r.srv[v].metadata.GetConsumerGroup(v12GroupID) == nil {
 			obs.A, a = "Skip", "Skip"
 			break
 		}
@@ -315,12 +244,12 @@ func TestVerifGroupsFSM(t *testing.T) {
 	if err != nil {
 		t.Fatal(err)
 	}
-	gate := &v12Gate{}
+	gate := &v12Gate{driver: v12GID()}
 	VerifGateHook = gate.hook
 	defer func() { VerifGateHook = nil }()
 	for _, b := range sf.Behaviours {
 		run := &v12FSMRun{servers: vFStrs(b.Cfg, "servers"), streams: vFStrs(b.Cfg, "streams"),
-			srv: map[string]*Server{}, dirs: map[string]string{}, pend: map[string][]v12Parked{}, gate: gate}
+			srv: map[string]*Server{}, dirs: map[string]string{}, gate: gate}
 		for _, v := range run.servers {
 			run.dirs[v] = filepath.Join(base, fmt.Sprintf("%s%d", v, b.ID))
 			run.srv[v] = v06NewServer(v, run.dirs[v])
@@ -347,14 +276,9 @@ func TestVerifGroupsFSM(t *testing.T) {
 			ev := run.step(b.ID, step)
 			failed = failed || strings.HasPrefix(ev.Obs.Err, "other:") || strings.HasPrefix(ev.Obs.Err, "panic:")
 			tw.Emit(ev)
-			if run.infra != "" {
-				t.Fatalf("INFRA: behaviour %d: %s", b.ID, run.infra)
-			}
 		}
+		gate.releaseAll()
 		for _, v := range run.servers {
-			for _, p := range run.pend[v] {
-				close(p.ch)
-			}
 			v06Close(run.srv[v])
 			// (see TestVerifMetadataFSM: directories of a behaviour in which the code under
 			// test failed stay until the process has exited)
